@@ -11,6 +11,7 @@ CONSTANTS
   Kinds = {"cpuset", "limit"}
   Algos = {"leveled"}
   CacheMode = "cold"
+  ExternalSteps = FALSE
 INVARIANT V
 INVARIANT TNAtEnd
 PROPERTY StepIsPropStep
